@@ -260,16 +260,19 @@ def run(rep, tier, seed):
     if tier == 'quick':
         names, init_limit, max_states = configs.SMALL + ['crossing.7x7', 'four_rooms.7x7', 'teleport.7x7'], 400, 20000
     else:
-        names, init_limit, max_states = [n for n, _ in configs.all_configs()], 500, 50000
+        names, init_limit, max_states = configs.SMALL + ['crossing.7x7', 'four_rooms.7x7', 'teleport.7x7', 'memory_four_rooms.7x7'], 800, 30000
     rs, rt = dyn.run_reach(rep, names, init_limit, max_states, make_hooks, replay, 'kinematics_on_reachable_edges', lineages=4)
     sn = 0
-    for name in (configs.SMALL if tier == 'quick' else [n for n, _ in configs.all_configs()]):
-        for sd in (seed * 17 + 1, seed * 17 + 2):
-            k, m = judge_stateful(name, sd)
-            sn += k
-            if m:
-                case = {'kind': 'stateful', 'config': name, 'seed': sd, 'sig': {'part': 'stateful', 'config': name}}
-                rep.violation(case, m)
+    sjobs = [(name, sd) for name in (configs.SMALL if tier == 'quick' else configs.SMALL + configs.MEDIUM)
+             for sd in (seed * 17 + 1, seed * 17 + 2)]
+    from ..pool import pmap
+    for (name, sd), (k, m) in zip(sjobs, pmap(lambda j: judge_stateful(*j), sjobs)):
+        sn += k
+        if m and judge_stateful(name, sd)[1]:
+            case = {'kind': 'stateful', 'config': name, 'seed': sd, 'sig': {'part': 'stateful', 'config': name}}
+            rep.violation(case, m)
+        elif m:
+            raise SystemExit(f'INTERNAL: violation did not reproduce on re-execution: {m}')
     pn = 0
     for name in ('empty.4x4', 'keydoor.5x5', 'teleport.5x5'):
         for acts in (('MOVE_FORWARD', 'TURN_LEFT', 'TURN_RIGHT'), ('MOVE_FORWARD', 'MOVE_BACKWARD', 'MOVE_LEFT', 'MOVE_RIGHT', 'TURN_LEFT'),
